@@ -420,7 +420,7 @@ def rule_sequencing(ctx):
         ctx.add("SEQ", d + ":append-after-problems", ok, site,
                 "in one iteration: problems of lemma i are built at statement %s, its consequences are appended to the axioms at statement %s" % (inner_idx, app_idx))
         if len(app_idx) == 1:
-            c = [c for c in walk(hq.stmt_expr(st[app_idx[0]])) if c.get("k") == "MethodCall" and c["method"] in ("append", "extend")][0]
+            c = [c for c in walk(hq.stmt_expr(st[app_idx[0]])) if c.get("k") == "MethodCall" and c["method"] in ("append", "extend", "extend_from_slice")][0]
             s = flow.summ(c["args"][0])
             src_ok = any(x.endswith(".consequences") for x in flow.places_in(s)) and {lid for _, lid in flow.locals_in(s)} <= lemma_ids | set() and "conjectures" not in repr(s)
             roots = [strip(n) for n in walk(c["args"][0]) if n.get("k") == "Field" and n.get("name") == "consequences"]
